@@ -162,3 +162,31 @@ package dataflow
 //@   ensures found: result != nil ==> result.ssaValue == v
 //@   ensures complete: forall i int :: 0 <= i && i < len(a.args) && a.args[i] != nil && a.args[i].ssaValue == v ==> result != nil
 //@   loop argNode invariant forall j int :: 0 <= j && j < iter(argNode) ==> a.args[j] == nil || a.args[j].ssaValue != v
+
+// ---------------------------------------------------------------------------
+// C01 / C04: only real builtins (and error.Error()) may be swallowed as "handled
+// builtin calls"; a user function or method that merely has the NAME of a builtin
+// (delete, close, max, ...) must get a call node like any other call.
+
+//@ func isHandledBuiltinCall
+//@   property C01 C04
+//@   pure
+//@   requires instruction != nil && ref(instruction) != 0
+//@   ensures only_builtins: result ==> istype(instruction.Common().Value, *ssa.Builtin) || (instruction.Common().IsInvoke() && instruction.Common().Method.Name() == "Error" && len(instruction.Common().Args) == 0)
+//@   ensures exact_builtin: istype(instruction.Common().Value, *ssa.Builtin) ==> (result <==> handledName(instruction.Common().Value.Name(), len(instruction.Common().Args)))
+//@   ensures exact_other: instruction.Common().Value != nil && !istype(instruction.Common().Value, *ssa.Builtin) ==> (result <==> (instruction.Common().IsInvoke() && instruction.Common().Method.Name() == "Error" && len(instruction.Common().Args) == 0))
+//@   ensures nil_value: instruction.Common().Value == nil ==> !result
+//@ spec handledName(n string, nargs int) bool = n == "ssa:wrapnilchk" || n == "append" || n == "len" || n == "close" || n == "delete" || n == "println" || n == "print" || n == "recover" || n == "cap" || n == "complex" || n == "imag" || n == "real" || n == "min" || n == "max" || n == "clear" || (n == "copy" && nargs == 2)
+
+// doBuiltinCall must transfer whenever isHandledBuiltinCall said the call is
+// handled (the caller then creates no call node), and move the marks of every
+// argument of the value-combining builtins to the result.
+// SSA facts assumed (go/ssa lowers variadic append to two operands): see requires.
+//@ func doBuiltinCall
+//@   property C01 C08
+//@   requires instruction != nil && ref(instruction) != 0 && callCommon != nil && callCommon == instruction.Common()
+//@   requires istype(callCommon.Value, *ssa.Builtin) ==> ((callCommon.Value.Name() == "append" || callCommon.Value.Name() == "complex") ==> len(callCommon.Args) == 2)
+//@   ensures consistent: isHandledBuiltinCall(instruction) ==> result
+//@   ensures all_args: forall i int :: istype(callCommon.Value, *ssa.Builtin) && 0 <= i && i < len(callCommon.Args) && (callCommon.Value.Name() == "min" || callCommon.Value.Name() == "max" || callCommon.Value.Name() == "complex" || callCommon.Value.Name() == "len" || callCommon.Value.Name() == "real" || callCommon.Value.Name() == "imag" || callCommon.Value.Name() == "ssa:wrapnilchk") ==> xfer(t, instruction, callCommon.Args[i], callValue)
+//@   ensures append: istype(callCommon.Value, *ssa.Builtin) && callCommon.Value.Name() == "append" ==> xfer(t, instruction, callCommon.Args[0], callValue) && xfer(t, instruction, callCommon.Args[1], callValue) && xfer(t, instruction, callCommon.Args[1], callCommon.Args[0])
+//@   ensures copy: istype(callCommon.Value, *ssa.Builtin) && callCommon.Value.Name() == "copy" && len(callCommon.Args) == 2 ==> xfer(t, instruction, callCommon.Args[1], callCommon.Args[0])
